@@ -140,3 +140,43 @@ def instant_order_findings(rm: RunModel, events):
                         f'(iteration order {"ascending" if direction > 0 else "descending"} contradicts the dependence)',
                         ev, ev, r.attr))
     return out
+
+
+_C06_CACHE = {}
+
+
+def absorb_arith(model, rep, rule, triples):
+    """the solver IR interprets quantity arithmetic natively (SI magnitudes); which dunder Python actually dispatches to
+    (reflected methods of subclasses included) and what it returns is decided by C06's dispatch model - the triples the
+    property's formulas use are re-reported here under the dependent id"""
+    from sa.core import Report
+    key = id(model)
+    if key not in _C06_CACHE:
+        import checks.c06 as c06
+        dep = Report('C06')
+        c06.check(model, dep)
+        _C06_CACHE.clear()
+        _C06_CACHE[key] = dep
+    dep = _C06_CACHE[key]
+    want = {' '.join(t) for t in triples}
+    n = 0
+    for i in dep.instances:
+        if i.extra.get('triple') in want and i.rule in ('C06.kind', 'C06.si-semantics', 'C06.unit-rule', 'C06.required'):
+            n += 1
+            sub = i.rule.split('.', 1)[1]
+            if i.status == 'HOLDS':
+                rep.holds(f'{rule}.{sub}', i.extra['triple'], i.detail, i.loc)
+            elif i.status == 'VIOLATION':
+                rep.violation(f'{rule}.{sub}', i.extra['triple'], f'{i.construct}: {i.detail}', i.loc)
+            else:
+                rep.cannot(f'{rule}.{sub}', i.extra['triple'], i.detail, i.loc)
+    rep.require(rule, len(want), 'one instance per operator triple the formulas use')
+    return n
+
+
+TIME_ARITH = [('Time', '+', 'TimeInterval'), ('number', '*', 'TimeInterval'), ('TimeInterval', '/', 'TimeInterval')]
+EULER_ARITH = [('AngularAcceleration', '*', 'TimeInterval'), ('AngularSpeed', '*', 'TimeInterval'), ('AngularSpeed', '+', 'AngularSpeed'),
+               ('AngularPosition', '+', 'AngularPosition'), ('Torque', '/', 'InertiaMoment'), ('InertiaMoment', '*', 'number'),
+               ('InertiaMoment', '+', 'InertiaMoment')]
+KIN_ARITH = [('number', '*', 'AngularPosition'), ('number', '*', 'AngularSpeed'), ('number', '*', 'AngularAcceleration')]
+TORQUE_ARITH = [('Torque', '*', 'number'), ('Torque', '/', 'number'), ('Torque', '-', 'Torque')]
